@@ -21,6 +21,36 @@ def _simplified(sym):
     return False
 
 
+def expand_new_helper(repo, f, value):
+    """If `value` is a call of a function that did not exist on the pinned tree and consists of a single `return <expr>`,
+    return <expr> with the parameters replaced by the call's arguments; otherwise `value` itself."""
+    from ..sim import is_new_function
+    import copy
+    if not isinstance(value, ast.Call):
+        return value
+    site = repo.callgraph().site_of(f, value)
+    if site is None or len(site.targets) != 1:
+        return value
+    g = next(iter(site.targets))
+    if not is_new_function(g):
+        return value
+    body = [b for b in g.node.body if not (isinstance(b, ast.Expr) and isinstance(b.value, ast.Constant))]
+    if len(body) != 1 or not isinstance(body[0], ast.Return) or body[0].value is None:
+        return value
+    params = g.params()
+    if g.cls is not None and not g.is_static():
+        params = params[1:]
+    if len(params) != len(value.args) or value.keywords:
+        return value
+    mapping = dict(zip(params, value.args))
+    expr = copy.deepcopy(body[0].value)
+
+    class T(ast.NodeTransformer):
+        def visit_Name(self, x):
+            return copy.deepcopy(mapping[x.id]) if x.id in mapping else x
+    return T().visit(expr)
+
+
 def run(ctx):
     repo = ctx.repo
     ctx.decided = ['C12.1 failed parse keeps the old matcher and reports', 'C12.2 each command updates its own matcher',
@@ -130,14 +160,25 @@ def run(ctx):
             augs = {(e.target, norm(e.value)) for e in p.events if e.kind == 'aug'}
             ctx.check(augs == {('_as_list(new).positive', '_as_list(old).positive'), ('_as_list(new).negative', '_as_list(old).negative')}, 'C12.4', 'join:field-wise', f_join.loc(),
                       'old alternatives join the alternatives and old exclusions join the exclusions', 'join extends %s' % sorted(augs))
+            FILT = re.compile(r'^\[(\w+) for \1 in (?:\w+|_as_list\(new\))\.positive if (?:\1\.always\(\) is not True|not \1\.always\(\) is True)\]$')
             stores = [e for e in p.events if e.kind == 'store' and isinstance(e.node, ast.Assign)]
+            filt_names = {e.target for e in p.events if e.kind == 'bind' and FILT.match(norm(getattr(e.value, '_origin', e.value)))}
+            star_stores = []
             for e in stores:
-                good = e.target == '_as_list(new).positive' and re.match(r'^\[(\w+) for \1 in (?:new_list|_as_list\(new\))\.positive if (?:\1\.always\(\) is not True|not \1\.always\(\) is True)\]$', norm(e.value))
-                ctx.check(bool(good), 'C12.4', 'join:only-star-dropped', f_join.loc(e.node), 'only always-true alternatives are dropped from the alternatives', 'join rewrites %s <- %s' % (e.target, norm(e.value)[:100]))
-            app = [e for e in p.events if e.kind == 'call' and e.ftext == '_as_list(new).positive.append']
-            empty = [v for a, v in p.decisions if a.text == '0 == len(_as_list(new).positive)']
-            ctx.check(bool(empty) and (len(app) == 1) == bool(empty[0]) and all(norm(e.args[0]) == 'AlwaysMatcher(True)' for e in app), 'C12.4', 'join:star-readded-iff-empty:%s' % (empty[0] if empty else '?'), f_join.loc(),
-                      'a * alternative is re-added exactly when no specific alternative is left', 'append=%s empty=%s' % ([e.text for e in app], empty))
+                v = getattr(e.value, '_origin', None) if isinstance(e.value, ast.Name) else None
+                vt = norm(v if v is not None else e.value)
+                is_filter = bool(FILT.match(vt)) or (isinstance(e.value, ast.Name) and e.value.id in filt_names)
+                is_star = vt == '[AlwaysMatcher(True)]'
+                if is_star:
+                    star_stores.append(e)
+                good = e.target == '_as_list(new).positive' and (is_filter or is_star)
+                ctx.check(bool(good), 'C12.4', 'join:only-star-dropped', f_join.loc(e.node), 'only always-true alternatives are dropped from the alternatives', 'join rewrites %s <- %s' % (e.target, vt[:100]))
+            app = [e for e in p.events if e.kind == 'call' and e.ftext == '_as_list(new).positive.append' and norm(e.args[0]) == 'AlwaysMatcher(True)']
+            bad_app = [e for e in p.events if e.kind == 'call' and e.ftext == '_as_list(new).positive.append' and norm(e.args[0]) != 'AlwaysMatcher(True)']
+            empty = [v for a, v in p.decisions if a.text == '0 == len(_as_list(new).positive)'] + [not v for a, v in p.decisions if a.text in filt_names or a.text == '_as_list(new).positive']
+            added = len(app) + len(star_stores)
+            ctx.check(bool(empty) and (added == 1) == bool(empty[0]) and not bad_app, 'C12.4', 'join:star-readded-iff-empty:%s' % (empty[0] if empty else '?'), f_join.loc(),
+                      'a * alternative is re-added exactly when no specific alternative is left', 'star added=%s empty=%s' % ([e.text[:50] for e in app + star_stores], empty))
             negw = [e for e in p.events if e.kind in ('store',) and isinstance(e.node, ast.Assign) and e.target.endswith('.negative')]
             ctx.check(not negw, 'C12.4', 'join:exclusions-kept', f_join.loc(), 'no exclusion is dropped by join')
     ctx.floor('C12.4', len(jpaths), 4, 'paths of join')
@@ -150,7 +191,7 @@ def run(ctx):
 
     # ---- C12.5 list semantics ---------------------------------------------------------------------------------------
     f_ml = repo.func('MatcherList.matches')
-    mp = paths_of(repo, f_ml, unroll=3 if ctx.tier == 'thorough' else 2)
+    mp = paths_of(repo, f_ml, unroll=3 if ctx.tier == 'thorough' else 2, bool_returns=True)
     nml = 0
     for p in mp:
         if p.outcome[0] != 'return':
@@ -185,7 +226,7 @@ def run(ctx):
             if isinstance(n, ast.Assign) and isinstance(n.targets[0], ast.Attribute) and norm(n.targets[0]) in ('self.positive', 'self.negative'):
                 ns += 1
                 which = n.targets[0].attr
-                t = norm(n.value)
+                t = norm(expand_new_helper(repo, f, n.value))
                 m1, m2 = MAP.match(t), FLT.match(t)
                 ok = bool((m1 and m1.group(2) == which) or (m2 and m2.group(2) == which))
                 if not ok and which == 'positive' and re.match(r'^\[\w+\]$', t):
